@@ -99,6 +99,8 @@ CASES = [
                      emit(("bin", "%", S("%s"), I(3))), emit(("bin", "%", S("%s"), ("list", [I(1), I(2)]))), emit(("bin", "%", S("%s"), ("tuple", [("tuple", [I(1), I(2)])]))),
                      emit(("bin", "%", S("x%sy"), ("tuple", [S("a")]))), emit(("bin", "%", S("%d%%"), I(1 << 70))), emit(("bin", "%", S("%x"), I(-(1 << 31)))),
                      emit(("bin", "%", S("100%%"), ("tuple", []))),
+                     emit(("bin", "%", S("%x %X %o %d"), ("tuple", [I(-255), I(-255), I(-8), I(-7)]))),
+                     emit(("bin", "%", S("%x %X %o"), ("tuple", [I(-(1 << 40)), I(1 << 40), I(-(1 << 31) - 1)]))),
                      ("expr", ("bin", "%", S("x%sy"), ("tuple", [I(1), I(2)])))]),
     # str.format
     ("str-format", [emit(meth(S("a{}b{}c"), "format", I(1), S("x"))), emit(meth(S("({1}, {0}, {1})"), "format", S("zero"), I(1))),
